@@ -82,7 +82,7 @@ def needles(rng, t):
     return [x for x in dict.fromkeys(out) if x != '']
 
 
-def plan(tier, seed):
+def _plan(tier, seed):
     return [{'kind': 'slice', 'part': p, 'parts': 8} for p in range(8)] + [{'kind': 'search', 'part': p, 'parts': 6} for p in range(6)] + \
            [{'kind': 'join'}, {'kind': 'literal'}]
 
@@ -212,6 +212,9 @@ def run_literal(shard, ctx):
 
 
 def run_shard(shard, ctx):
+    if isinstance(shard, dict) and 'mixed' in shard:
+        from ..mixed import run_mixed
+        return run_mixed(ctx, ID, shard['n'])
     if 'replay' in shard:
         c = shard['replay']
         return replay_case(ctx, ID, c, exact=True, err_exact='SEARCH' in (c.get('formula') or ''), classify=classify, empty_text_is_blank=True)
@@ -223,3 +226,8 @@ def finish(r, tier, seed):
     extra = flag_consistency_verdict(r, ID)
     return {**extra, 'helper_calls': {k: v for k, v in r.counters.items() if k.startswith('helper:_') and any(
         x in k for x in ('left', 'right', 'mid', 'search', 'value', 'excel_value'))}}
+
+
+def plan(tier, seed):
+    # 'mixed': nests over the whole function set that use at least one function of this property (vf/mixed.py)
+    return _plan(tier, seed) + [{'mixed': k, 'n': 3 if tier == 'quick' else 60} for k in range(3 if tier == 'quick' else 8)]
